@@ -681,6 +681,10 @@ class Sim:
                 if own:
                     self.violate("C02", f"C02.timeline.{kind}", f"state after {kind}() differs from timeline state {tl.p}: {diff[:3]}", op)
                     return
+                if self.active("C07") and snap.get("seg") != post.get("seg"):
+                    # C07's own clause: undoing (redoing) restores the array bit for bit
+                    self.violate("C07", "C07.undo_bytes", f"{kind}() did not restore the segmentation array of timeline state {tl.p} bit for bit", op)
+                    return
                 if self.active("C01") and self._adjacent_inverse(kind):
                     # undo() directly after the edit it inverts (or redo() directly after
                     # that undo): plain inversion of one edit, C01's own statement
